@@ -20,9 +20,11 @@
 #define VIN_DEFINE(T) static T IN =
 #define VIN_LOAD() do { } while (0)
 #define VHINT_EQ(x, k) do { } while (0)
+/* bind a state field to an input value: native build assigns */
+#define VBIND(lhs, val) do { (lhs) = (val); } while (0)
 #else
-void __CPROVER_assume(_Bool);
-void __CPROVER_assert(_Bool, const char *);
+/* bind a state field to an input value: CBMC build constrains the (nondet) object instead of writing it */
+#define VBIND(lhs, val) __CPROVER_assume((lhs) == (val))
 #define VASSUME(c) __CPROVER_assume(c)
 #define VASSERT(c, msg) __CPROVER_assert((c), "PROP:" msg)
 /* reachability witness: must come back FAILED, otherwise the harness is vacuous */
